@@ -40,7 +40,49 @@ func Lower(x *smt.Term) *smt.Term {
 	if x.Op == "uf" && x.Name == "lower" {
 		return x
 	}
+	if WideNames && mentionsTokenData(x) {
+		// strings.ToLower folds two non-ASCII code points to ASCII letters:
+		// U+212A KELVIN SIGN -> k and U+0130 -> i; the byte-wise ASCII folding
+		// (the uninterpreted symbol with its axioms) leaves their bytes alone
+		u := smt.UF("lower", smt.String, x)
+		return smt.App("str.replace_all", smt.String, smt.App("str.replace_all", smt.String, u, smt.StrC(KelvinSign), smt.StrC("k")), smt.StrC(DottedI), smt.StrC("i"))
+	}
 	return smt.UF("lower", smt.String, x)
+}
+
+// WideNames extends the alphabet of tag names (and of every string derived
+// from them) from 7-bit ASCII to ASCII plus the UTF-8 sequences of the two
+// code points that strings.ToLower maps to ASCII letters. Used by the
+// non-ASCII pass of C01 only.
+var WideNames = false
+
+const (
+	KelvinSign = "\xe2\x84\xaa" // U+212A, lower-cased to "k"
+	DottedI    = "\xc4\xb0"     // U+0130, lower-cased to "i"
+)
+
+var (
+	reWideExtra   = smt.ReUnion(smt.ReLit(KelvinSign), smt.ReLit(DottedI))
+	reWideStar    = smt.ReStar(smt.ReUnion(smt.ReRange(0, 0x7f), reWideExtra))
+	reNoUpperWide = smt.ReStar(smt.ReUnion(smt.ReRange(0, 'A'-1), smt.ReRange('Z'+1, 0x7f), reWideExtra))
+)
+
+// Domain is the alphabet constraint of a string term.
+func Domain(x *smt.Term) *smt.Term {
+	if WideNames {
+		return smt.InRe(x, reWideStar)
+	}
+	return smt.ASCII(x)
+}
+
+func mentionsTokenData(x *smt.Term) bool {
+	found := false
+	smt.Walk(x, func(t *smt.Term) {
+		if (t.Op == "var" && strings.Contains(t.Name, ".data")) || t.Op == "select" {
+			found = true
+		}
+	})
+	return found
 }
 
 // HasToken: v contains token t (case-insensitively) delimited by ASCII white space.
@@ -119,11 +161,11 @@ func SideConditions(as []*smt.Term) []*smt.Term {
 		todo = todo[1:]
 		switch {
 		case x.Op == "var" && x.Sort == smt.String:
-			add(smt.ASCII(x))
+			add(Domain(x))
 		case x.Op == "select":
-			add(smt.ASCII(x))
+			add(Domain(x))
 		case x.Op == "uf" && x.Sort == smt.String:
-			add(smt.ASCII(x))
+			add(Domain(x))
 		}
 		if x.Op == "=" {
 			// a string compared with the serialisation of a text token: then (and
@@ -164,8 +206,13 @@ func SideConditions(as []*smt.Term) []*smt.Term {
 		case "lower":
 			y := x.Args[0]
 			add(smt.Eq(smt.StrLen(x), smt.StrLen(y)))
-			add(smt.InRe(x, reNoUpper))
-			add(smt.Implies(smt.InRe(y, reNoUpper), smt.Eq(x, y)))
+			if WideNames {
+				add(smt.InRe(x, reNoUpperWide))
+				add(smt.Implies(smt.InRe(y, reNoUpperWide), smt.Eq(x, y)))
+			} else {
+				add(smt.InRe(x, reNoUpper))
+				add(smt.Implies(smt.InRe(y, reNoUpper), smt.Eq(x, y)))
+			}
 			// lower-casing keeps every occurrence of a letter-case-insensitive fragment
 			for _, f := range HostileFragments {
 				if !LowerFragmentAxioms {
